@@ -453,7 +453,7 @@ def run_case(case):
     fam = case.get('family')
     if kind in ('steps', 'reconfig') and case.get('periodic', True) and fam is None:
         fam = str(rng.choice(['uniform', 'symmetric', 'random']))
-    nmax = case.get('nmax', (4 if nd < 3 else 3) if kind == 'tel' else (6 if nd < 3 else 4))
+    nmax = case.get('nmax', ((6 if nd < 3 else 4) if case.get('deep') else (4 if nd < 3 else 3)) if kind == 'tel' else (6 if nd < 3 else 4))
     faces, meta = gen.gen_grid(rng, cls, nmin=1, nmax=nmax, family=fam)
     g = Geom(cls, faces)
     m = gen.build_mesh(pf, cls, faces)
@@ -493,7 +493,7 @@ def plan(tier, seed):
         i = 0
         for term in TERMS:
             for rep in range(5 if q else 120):
-                cases.append({'cls': cls, 'kind': 'tel', 'term': term, 'seed': [seed, 1, ci, i], 'ufam': ['sign', 'random', 'sign'][rep % 3],
+                cases.append({'cls': cls, 'kind': 'tel', 'term': term, 'seed': [seed, 1, ci, i], 'ufam': ['sign', 'random', 'sign'][rep % 3], 'deep': (not q) and rep % 4 == 0,
                               'family': gen.FAMILIES[rep % 5] if rep % 2 else None})
                 i += 1
         for mode in ('implicit', 'explicit'):
